@@ -98,6 +98,16 @@ def gen_units(ctx, have_uring=True):
                             continue
                         for r in range(2 if quick else 12):
                             unit(name="%s.rq.p%dk%d.%s.%s" % (c, Pn, K, mode, stop), ctx=c, kind="rq", P=Pn, K=K, mode=mode, stop=stop)
+        if c == "ur":
+            # burst: K one-byte reads outstanding on one pipe, all submitted within ONE pass of the run loop (the real submission
+            # ring has 256 entries: the surplus must go through pendingIoQueue_), then K bytes written
+            for variant, K in ([("rem", 300), ("loc", 257)] if quick else
+                               [(v, k) for v in ("rem", "loc") for k in (255, 256, 257, 258, 300, 319)] * 2):
+                reads = [["R", i, 1, variant] for i in range(1, K + 1)]
+                if variant == "rem":      # started remotely before the I/O thread enters run()
+                    unit(name="ur.burst.rem.%d" % K, ctx=c, kind="io", steps=reads + [["go"], ["feed", K]], multiset=1, hold=1)
+                else:                     # fanned out from one item on the I/O thread
+                    unit(name="ur.burst.loc.%d" % K, ctx=c, kind="io", steps=[P, ["loc", reads], ["feed", K]], multiset=1)
         for name, steps, extra, racy in io_scenarios(c):
             reps = (10 if racy else 2) if quick else (80 if racy else 10)
             if KNOWN_STUCK.match(name) and quick:
@@ -144,6 +154,15 @@ def model_check_all(ctx):
     if os.path.exists(os.path.join(vlib.VERIF, "spec", "io", "UringIoMC.tla")):
         vlib.model_check(ctx, "io", "UringIoMC", cfg="UringIoFixed.cfg", timeout=1500)
         vlib.model_check(ctx, "io", "UringIoMC", cfg="UringIoFixedLive.cfg", timeout=1500)
+        # submission-ring accounting (many operations, ring of N entries, pendingIoQueue_, flush at io_uring_enter)
+        vlib.model_check(ctx, "io", "UringRingMC", cfg="UringRing.cfg", timeout=900)
+        vlib.model_check(ctx, "io", "UringRingMC", cfg="UringRingLive.cfg", timeout=900)
+        if not quick:
+            vlib.model_check(ctx, "io", "UringRingMC", cfg="UringRing4.cfg", timeout=1500)
+        r = vlib.model_check(ctx, "io", "UringRingMC", cfg="UringRingOffByOne.cfg", must_hold=False, timeout=900)
+        if r["kind"] != "invariant":
+            raise vlib.Broken("UringRingOffByOne.cfg (try_submit_io accepts a submission when the ring is full) must be refuted, TLC says %s" % r["kind"])
+        rep.note("UringRing sensitivity: `usedCount <= sqEntryCount_` -> %s violated (expected)" % r["violated"])
         for cfg, inv, what in (("UringIoAsIsC.cfg", "CancelReachesIo", "stop callback constructed before the I/O SQE is queued"),
                                ("UringIoAsIsD.cfg", "BytesAreTrue", "stop_requested() tested before the CQE result")):
             r = vlib.model_check(ctx, "io", "UringIoMC", cfg=cfg, must_hold=False, timeout=900)
